@@ -148,6 +148,25 @@ def tf_case(i, t, rng):
             "seeks": [{"field": f, "term": "T", "prog": [["adv"], ["same"], ["adv"], ["end"]]}]}
 
 
+def vintb_case(i, v, rng):
+    """a posting list of `listlen` documents for T; some documents hold T with the generated frequency, or twice with the
+    generated gap between the two positions: one inside the first 128 postings, the others in the incomplete last block"""
+    f, n, val = v["opt"], v["listlen"], v["value"]
+    special = {n - 1, n - 2} | ({5} if n > 128 else {0})
+    docs = []
+    for d in range(n):
+        if d in special:
+            if v["kind"] == "tf":
+                toks = [["T", p, 1] for p in range(val)]
+            else:
+                toks = [["T", 0, 1], ["w1", 1, 1], ["T", val, 1], ["T", val + (val if d == n - 1 else 1), 1]]
+        else:
+            toks = [["T", 0, 1]] + ([["w2", 1, 1]] if d % 5 == 0 else [])
+        docs.append({f: [toks]})
+    return {"id": i, "kind": "vintb", "vintb": v, "segs": [docs], "deletes": [], "merge": False,
+            "seeks": [{"field": f, "term": "T", "prog": [["skip", n - 3], ["adv"], ["adv"], ["end"]]}]}
+
+
 def many_case(i, m, rng):
     """documents whose (field, value) pairs of several text fields are interleaved in the TLC-generated order; every
     value is one or two distinct tokens, so a permuted value shows in the positions"""
@@ -203,7 +222,7 @@ def describe(unit, k, text):
 
 def run_cases(ctx, cases, label):
     cp = ctx.path(f"{label}_cases.ndjson")
-    vlib.write_ndjson(cp, [{k: v for k, v in c.items() if k not in ("kind", "shape", "tf", "many", "jsonvals")} for c in cases])
+    vlib.write_ndjson(cp, [{k: v for k, v in c.items() if k not in ("kind", "shape", "tf", "many", "jsonvals", "vintb")} for c in cases])
     tp = ctx.path(f"{label}_trace.ndjson")
     vlib.run_bin("invidx_driver", ["run", "--in", cp, "--out", tp], timeout=900, mem_gb=12)
     ev = _fid.clean(vlib.read_ndjson(tp))
@@ -301,6 +320,14 @@ def run(ctx):
         pi += k
     for t in tfs[:(8 if ctx.quick else len(tfs))]:
         cases.append(tf_case(len(cases), t, rng))
+    vbs = [c for c in gen if c["what"] == "vintb"]
+    if len(vbs) < 30:
+        raise vlib.ToolError("Gen_InvertedIndex produced no frequency / gap boundary cases")
+    for v in vbs:
+        if ctx.quick and v["value"] > 1000 and (v["kind"] == "tf" or v["listlen"] > 128) and v["opt"] != "pos":
+            continue                    # quick: the 16,384-token documents only for the field with positions
+        cases.append(vintb_case(len(cases), v, rng))
+    ctx.cov["vint_boundary_cases"] = len(vbs)
     manys = [c for c in gen if c["what"] == "many"]
     if len(manys) < 12:
         raise vlib.ToolError("Gen_InvertedIndex produced no many-values cases")
